@@ -195,3 +195,38 @@ def run(ctx):
             continue
         rnd = sorted({x.get('callee') for x in f.calls() if x.get('callee') in ('psf_lrint', 'psf_lrintf')})
         ctx.ob('ROUND-ONLY', f.name, not casts, f.loc(casts[0]) if casts else f.loc(f.body), 'rounding via %s; truncating casts: %s' % (rnd or 'n/a', [f.s(n)[:40] for n in casts]), None)
+    _norm_slot_and_round_type(ctx)
+
+
+def _norm_slot_and_round_type(ctx):
+    prog = ctx.prog
+    ctx.rule('NORM-SLOT', 'every function installed in a read_float / write_float slot (all codecs and containers) never reads psf->norm_double, every function in a '
+             'read_double / write_double slot never reads psf->norm_float; when the float variant of a codec selects its scale by norm_float the double variant selects it by norm_double', floor=100)
+    fam = {}
+    for slot, bad, good in (('read_float', 'norm_double', 'norm_float'), ('write_float', 'norm_double', 'norm_float'),
+                            ('read_double', 'norm_float', 'norm_double'), ('write_double', 'norm_float', 'norm_double')):
+        for f in sorted(prog.slot_fns(slot), key=lambda f: (f.file, f.line)):
+            refs = {}
+            for n in f.walk():
+                if n.get('k') == 'MemberExpr' and n.get('n') in ('norm_float', 'norm_double'):
+                    refs.setdefault(n['n'], n)
+            ctx.ob('NORM-SLOT', '%s:%s' % (slot, f.name), bad not in refs, f.loc(refs[bad]) if bad in refs else f.loc(f.body),
+                   '%s (slot %s) reads %s' % (f.name, slot, sorted(refs) or 'no normalisation flag'), None)
+            fam.setdefault((f.file, slot.split('_')[0]), {})[slot.split('_')[1]] = (f, good in refs)
+    for (file, rw), d in sorted(fam.items()):
+        if 'float' in d and 'double' in d:
+            ff, fu = d['float']
+            df, du = d['double']
+            ctx.ob('NORM-SLOT', 'pair:%s:%s' % (ff.name, df.name), fu == du, df.loc(df.body),
+                   '%s uses norm_float: %s; %s uses norm_double: %s (siblings must both honour their flag)' % (ff.name, fu, df.name, du), None)
+
+    ctx.rule('ROUND-TYPE', 'psf_lrintf is applied only to float-typed expressions: a double argument would be narrowed to float before rounding (double rounding; the stored code can differ from the nearest integer)', floor=30)
+    for f in sorted(prog.lib_fns(), key=lambda f: (f.file, f.line)):
+        for c in f.calls():
+            if c.get('callee') != 'psf_lrintf':
+                continue
+            a = f.args(c)[0]
+            a = a if isinstance(a, dict) else f.N[a]
+            inner = f.unwrap(a)
+            ctx.ob('ROUND-TYPE', '%s:%s' % (f.name, f.s(inner)[:50]), inner.get('t') == 'float', f.loc(c),
+                   'psf_lrintf (%s) : argument type %s' % (f.s(inner)[:60], inner.get('t')), None)
